@@ -19,7 +19,7 @@ type Matcher struct {
 	Points   int
 	Seed     uint64
 	Fails    []string
-	pre      []*Term // precondition (panic) guards of both sides
+	preA, preB []*Term // precondition (panic) guards passed so far on each side
 	nCmp     int
 	nLoops   int
 	nEvents  int
@@ -73,14 +73,19 @@ func (m *Matcher) eqTerms(a, b *Term) (bool, string) {
 	for k := 0; k < m.Points*4 && valid < m.Points; k++ {
 		seed := h64(m.Seed, "pt", k)
 		m.Env.Reset(seed)
-		skip := false
-		for _, p := range m.pre {
+		// a point is admissible when both sides agree on being outside the panic region
+		inA, inB := false, false
+		for _, p := range m.preA {
 			if m.Env.Eval(p).B {
-				skip = true
-				break
+				inA = true
 			}
 		}
-		if skip {
+		for _, p := range m.preB {
+			if m.Env.Eval(p).B {
+				inB = true
+			}
+		}
+		if inA != inB {
 			continue
 		}
 		excl := append([]atomRec{}, m.Env.Atoms...)
@@ -90,7 +95,7 @@ func (m *Matcher) eqTerms(a, b *Term) (bool, string) {
 		m.Env.Atoms = nil
 		// do not reuse the memo of side A for atoms of side B: shared sub-terms would hide their atoms
 		m.Env.memo = map[*Term]Val{}
-		for _, p := range m.pre {
+		for _, p := range append(append([]*Term{}, m.preA...), m.preB...) {
 			m.Env.Eval(p)
 		}
 		m.Env.Atoms = nil
@@ -134,7 +139,7 @@ func liveItems(r *Region, ignore map[string]bool) []interface{} {
 	for _, it := range r.Items {
 		switch x := it.(type) {
 		case *Event:
-			if x.Dead || x.Kind == "panic" {
+			if x.Dead {
 				continue
 			}
 			if (x.Kind == "call") && ignore[x.Callee] {
@@ -146,14 +151,6 @@ func liveItems(r *Region, ignore map[string]bool) []interface{} {
 		}
 	}
 	return out
-}
-
-func (m *Matcher) collectPre(r *Region, top bool) {
-	for _, it := range r.Items {
-		if e, ok := it.(*Event); ok && e.Kind == "panic" && !e.Dead && e.Loop == nil {
-			m.pre = append(m.pre, e.Guard)
-		}
-	}
 }
 
 // Run matches the two summaries. Parameters are identified by position.
@@ -171,51 +168,71 @@ func (m *Matcher) Run() bool {
 	for k, v := range m.GlobalAlias {
 		m.Env.FnAlias[k] = v
 	}
-	m.collectPre(m.A.Top, true)
-	m.collectPre(m.B.Top, true)
 	m.matchRegion(m.A.Top, m.B.Top, "top")
 	return len(m.Fails) == 0
 }
 
 func (m *Matcher) posA(e *Event) string { return m.PA.Pos(e.Pos) }
 
+func isPanicItem(it interface{}) (*Event, bool) {
+	e, ok := it.(*Event)
+	return e, ok && e.Kind == "panic"
+}
+
 func (m *Matcher) matchRegion(ra, rb *Region, ctx string) {
 	ia, ib := liveItems(ra, m.IgnoreCallees), liveItems(rb, m.IgnoreCallees)
-	n := len(ia)
-	if len(ib) < n {
-		n = len(ib)
-	}
-	for i := 0; i < n; i++ {
+	i, j, k := 0, 0, 0
+	for i < len(ia) || j < len(ib) {
+		// input-validation panics are preconditions: registered when the walk passes them, on either side
+		if i < len(ia) {
+			if e, ok := isPanicItem(ia[i]); ok {
+				m.preA = append(m.preA, m.ctxGuard(e.Guard, true))
+				i++
+				continue
+			}
+		}
+		if j < len(ib) {
+			if e, ok := isPanicItem(ib[j]); ok {
+				m.preB = append(m.preB, m.ctxGuard(e.Guard, false))
+				j++
+				continue
+			}
+		}
+		if i >= len(ia) || j >= len(ib) {
+			break
+		}
 		switch a := ia[i].(type) {
 		case *Event:
-			b, ok := ib[i].(*Event)
+			b, ok := ib[j].(*Event)
 			if !ok {
-				m.fail("%s item %d: code has %s at %s where the reference has a loop", ctx, i, a.Kind, m.posA(a))
+				m.fail("%s item %d: code has %s at %s where the reference has a loop", ctx, k, a.Kind, m.posA(a))
 				return
 			}
-			m.matchEvent(a, b, fmt.Sprintf("%s/%d", ctx, i))
+			m.matchEvent(a, b, fmt.Sprintf("%s/%d", ctx, k))
 		case *LoopS:
-			b, ok := ib[i].(*LoopS)
+			b, ok := ib[j].(*LoopS)
 			if !ok {
-				m.fail("%s item %d: code has a loop at %s where the reference has %s", ctx, i, m.PA.Pos(a.Pos), ib[i].(*Event).Kind)
+				m.fail("%s item %d: code has a loop at %s where the reference has %s", ctx, k, m.PA.Pos(a.Pos), ib[j].(*Event).Kind)
 				return
 			}
-			m.matchLoop(a, b, fmt.Sprintf("%s/L%d", ctx, i))
+			m.matchLoop(a, b, fmt.Sprintf("%s/L%d", ctx, k))
 		}
+		i++
+		j++
+		k++
 		if len(m.Fails) > 3 {
 			return
 		}
 	}
-	if len(ia) != len(ib) {
-		var extra string
-		if len(ia) > n {
-			extra = "code has extra: " + descItem(m.PA, ia[n])
-		} else {
-			extra = "reference has extra: " + descItem(m.PB, ib[n])
-		}
-		m.fail("%s: %d items in code vs %d in reference; %s", ctx, len(ia), len(ib), extra)
+	if i < len(ia) {
+		m.fail("%s: code has extra: %s", ctx, descItem(m.PA, ia[i]))
+	} else if j < len(ib) {
+		m.fail("%s: reference has extra: %s", ctx, descItem(m.PB, ib[j]))
 	}
 }
+
+// ctxGuard: a panic inside nested regions is only a precondition of the function when it is at top level.
+func (m *Matcher) ctxGuard(g *Term, _ bool) *Term { return g }
 
 func descItem(p *Prog, it interface{}) string {
 	switch x := it.(type) {
